@@ -36,9 +36,9 @@ class ScopeState:
 
         else:
             try:
-                initialized: StateType = state()
-                self._state[state] = initialized
-                return initialized
+                # not stored: caching here made a later explicit default (and other tasks
+                # sharing this scope state) see the default-constructed instance as if supplied
+                return state()
 
             except Exception as exc:
                 raise MissingState(
